@@ -57,6 +57,12 @@ def main(tier_: str) -> int:
         tlc_must_pass(ra, 'LiveParamsMC (A)')
         re_ = run_tlc('LiveParamsMC', f'LiveParamsMC_{tier_}_emit.cfg', workdir=d, workers=16, timeout=900, heap='6g')
         tlc_must_pass(re_, 'LiveParamsMC emission')
+        if tier_ == 'thorough':
+            # the single-state clauses over unbounded integers (SMT); slow, so only here - a time-out is 'unavailable', not a verdict
+            from harness.core import run_apalache, apalache_must_not_refute
+            apa = run_apalache('LiveParamsApa', workdir=d, timeout=1500)
+            apalache_must_not_refute(apa, 'LiveParamsApa')
+            out.coverage['apalache_unbounded'] = {k: v for k, v in apa.items() if k != 'tail'}
         states = re_.tagged('S')
         if len(states) != ra.distinct:
             raise MachineryFailure(f'{len(states)} emitted, {ra.distinct} states')
